@@ -5,8 +5,9 @@
      cfg                                   → prefilter=<cps|none> trail=<0|1> minlimit=<n>
      tables                                → ctl <cps> ws <cps>          (every scalar value classified)
      pre <cps>                             → <cps>                        filter in front of nfkc (source shape)
+     prefix <cps>                          → <cps>                        the same, repaired arrangement
      clean <cps>                           → none | some <cps>            trim(clean(x)) for an already NFKC-ed x
-     norm <limit> <input> <nfkc> <lens>    → none | some <cps> <0|1>      normalizeSrc, nfkc(pre input) = <nfkc>,
+     norm <limit> <input> <nfkc> <lens>    → none | some <cps> <0|1> | panic   normalizeSrc (literal loop), nfkc(pre input) = <nfkc>,
                                                                            graphemes(trimmed) = split by <lens>
      normfix / normorig  (same arguments)  → the repaired / original arrangement
      trunc <limit> <cps> <lens>            → <idx>                        truncate_at_grapheme_boundary -/
@@ -21,15 +22,16 @@ def drvUni (nf : List Char) (lens : List Nat) : Uni :=
   { nfkc := fun _ => nf, isControl := stdIsControl, isWhitespace := stdIsWhitespace,
     graphemes := splitLens lens }
 
-def showNorm (r : Option (List Char × Bool)) : String :=
+def showNorm (r : Option (Option (List Char × Bool))) : String :=
   match r with
-  | none => "none"
-  | some (t, tr) => s!"some {showChars t} {if tr then 1 else 0}"
+  | none => "panic"
+  | some none => "none"
+  | some (some (t, tr)) => s!"some {showChars t} {if tr then 1 else 0}"
 
 def classify (p : Char → Bool) : List Nat :=
   (List.range 0x110000).filter (fun n => (Char.ofNat n).toNat = n && p (Char.ofNat n))
 
-def runNorm (f : Uni → List Char → Nat → Option (List Char × Bool)) (l i n g : String) : String :=
+def runNorm (f : Uni → List Char → Nat → Option (Option (List Char × Bool))) (l i n g : String) : String :=
   match l.toNat?, natList i, natList n, natList g with
   | some l, some i, some n, some g => showNorm (f (drvUni (toChars n) g) (toChars i) l)
   | _, _, _, _ => "bad-op"
@@ -45,14 +47,17 @@ def step (_ : Unit) (ws : List String) : Unit × String :=
   | ["pre", x] => match natList x with
     | some x => ((), showChars (prefilter Mv.Gen.C33.PREFILTER_KEEP (drvUni [] []) (toChars x)))
     | none => ((), "bad-op")
+  | ["prefix", x] => match natList x with
+    | some x => ((), showChars (prefilter (some ['\n', '\r', '\t']) (drvUni [] []) (toChars x)))
+    | none => ((), "bad-op")
   | ["clean", x] => match natList x with
     | some x =>
       let t := trimWs (drvUni [] []) (clean (drvUni [] []) (toChars x))
       ((), if t.isEmpty then "none" else s!"some {showChars t}")
     | none => ((), "bad-op")
   | ["norm", l, i, n, g] => ((), runNorm normalizeSrc l i n g)
-  | ["normfix", l, i, n, g] => ((), runNorm normalize l i n g)
-  | ["normorig", l, i, n, g] => ((), runNorm normalizeOrig l i n g)
+  | ["normfix", l, i, n, g] => ((), runNorm (normalizeLit (some ['\n', '\r', '\t']) true) l i n g)
+  | ["normorig", l, i, n, g] => ((), runNorm (normalizeLit none false) l i n g)
   | ["trunc", l, x, g] => match l.toNat?, natList x, natList g with
     | some l, some x, some g => ((), toString (truncIdx (drvUni [] g) (toChars x) l))
     | _, _, _ => ((), "bad-op")
